@@ -152,7 +152,7 @@ def make_ukf(x, p, dyn, q, resample, alpha, beta, kappa, t0=0.0):
     return UnscentedKalmanFilter(
         tgt_id=10001,
         time=ScenarioTime(t0),
-        est_x=np.array(x, dtype=float),
+        est_x=np.array(x) if getattr(x, "dtype", None) is not None and x.dtype.kind == "i" else np.array(x, dtype=float),
         est_p=np.array(p, dtype=float),
         dynamics=dyn,
         q_matrix=np.array(q, dtype=float),
